@@ -1,8 +1,8 @@
 """Run /repo's test suite (guard off) and compare with /root/.vp/BASELINE.json's stable_pass list."""
 import json, subprocess, sys, os, xml.etree.ElementTree as ET
 repo = sys.argv[1] if len(sys.argv) > 1 else '/repo'
-out = '/dev/shm/torf-baseline-junit.xml'
-subprocess.run(['/venv/bin/python', '-m', 'pytest', '-q', '-p', 'no:cacheprovider', '--timeout=900',
+out = f'/dev/shm/torf-baseline-junit-{os.getpid()}.xml'
+subprocess.run(['taskset', '-c', os.environ.get('BASELINE_CPUS', '0-3'), '/venv/bin/python', '-m', 'pytest', '-q', '-p', 'no:cacheprovider', '--timeout=900',
                 '--continue-on-collection-errors', f'--junitxml={out}'], cwd=repo,
                stdout=subprocess.DEVNULL, stderr=subprocess.DEVNULL)
 base = json.load(open('/root/.vp/BASELINE.json'))
